@@ -76,8 +76,10 @@ type Model struct {
 	Cfg   Config
 	Now   int64
 	Items map[string]*Msg
-	// every lease handle ever issued (to tell "unknown" from "superseded" in reports)
+	// every lease handle ever issued
 	Issued map[string]bool
+	// IssuedBase counts grants per "<id>#<attempt>" (a re-enqueued id starts a new incarnation with attempt 1 again)
+	IssuedBase map[string]int
 	// observed (from-state, op, to-state) edges, for the explicit edge monitor
 	Edges map[string]int
 	// PostHasLeases: listings passed to Apply carry the lease handle and lease_until (private snapshot)
@@ -85,16 +87,19 @@ type Model struct {
 }
 
 func New(cfg Config, now int64) *Model {
-	return &Model{Cfg: cfg, Now: now, Items: map[string]*Msg{}, Issued: map[string]bool{}, Edges: map[string]int{}}
+	return &Model{Cfg: cfg, Now: now, Items: map[string]*Msg{}, Issued: map[string]bool{}, IssuedBase: map[string]int{}, Edges: map[string]int{}}
 }
 
 func (m *Model) Clone() *Model {
-	c := &Model{Cfg: m.Cfg, Now: m.Now, Items: make(map[string]*Msg, len(m.Items)), Issued: make(map[string]bool, len(m.Issued)), Edges: m.Edges, PostHasLeases: m.PostHasLeases}
+	c := &Model{Cfg: m.Cfg, Now: m.Now, Items: make(map[string]*Msg, len(m.Items)), Issued: make(map[string]bool, len(m.Issued)), IssuedBase: make(map[string]int, len(m.IssuedBase)), Edges: m.Edges, PostHasLeases: m.PostHasLeases}
 	for k, v := range m.Items {
 		c.Items[k] = v.clone()
 	}
 	for k := range m.Issued {
 		c.Issued[k] = true
+	}
+	for k, v := range m.IssuedBase {
+		c.IssuedBase[k] = v
 	}
 	return c
 }
@@ -761,7 +766,8 @@ func (m *Model) applyDequeue(op Op, obs *Obs, post map[string]*Msg) string {
 			}
 			return fmt.Sprintf("dequeue returned unknown message %s", id)
 		}
-		handle := fmt.Sprintf("%s#%d", id, it.Attempt+1)
+		base := fmt.Sprintf("%s#%d", id, it.Attempt+1)
+		handle := HandleName(base, m.IssuedBase[base])
 		if got.Lease != handle {
 			return fmt.Sprintf("dequeue of %s: lease handle %q, want fresh %q (attempt must increase by exactly one and the lease id be new)", id, got.Lease, handle)
 		}
@@ -782,9 +788,19 @@ func (m *Model) applyDequeue(op Op, obs *Obs, post map[string]*Msg) string {
 		}
 		m.edge(Queued, "dequeue", Leased)
 		m.Issued[handle] = true
+		m.IssuedBase[base]++
 		*it = *exp
 	}
 	return ""
+}
+
+// HandleName names the (n+1)-th grant of "<id>#<attempt>": the first is the base itself, later incarnations of
+// the same id get a "~k" suffix. Driver and model apply the same rule.
+func HandleName(base string, issuedBefore int) string {
+	if issuedBefore == 0 {
+		return base
+	}
+	return fmt.Sprintf("%s~%d", base, issuedBefore+1)
 }
 
 func keys(m map[string]*Msg) string {
